@@ -75,8 +75,15 @@ TEMPLATES = {
     "lenstr_x": ('<length name="n{i}" type="char" optional="false"/><field name="f{i}" type="string" length="n{i}"/>', False),
     "structSx": ('<field name="f{i}" type="SX"/>', False),
     "arrSX": ('<array name="f{i}" type="SX"/>', False),
+    # read-to-end arrays of bounded elements that are not fixed-size (while loops whose termination rests
+    # on the element's progress): plain, with an own <break>, with an own chunked section
+    "arrO": ('<array name="f{i}" type="O"/>', False),
+    "arrC": ('<array name="f{i}" type="C"/>', False),
+    "arrCO": ('<array name="f{i}" type="CO"/>', False),
 }
 SUPPORT += """
+  <struct name="O"><field name="p" type="char"/><field name="o" type="short" optional="true"/></struct>
+  <struct name="CO"><chunked><field name="c" type="char"/><field name="o" type="char" optional="true"/></chunked></struct>
   <struct name="SX"><field name="p" type="char" optional="false"/><array name="q" type="char" length="2" optional="false" delimited="false"/></struct>
 """
 
